@@ -659,6 +659,7 @@ struct Dumper
                 } else {
                     J.attribute("dk", "global");
                     J.attribute("q", qname(VD));
+                    J.attribute("qq", VD->getQualifiedNameAsString());
                 }
             } else if (const auto *EC = dyn_cast<EnumConstantDecl>(D)) {
                 J.attribute("dk", "enumc");
